@@ -137,6 +137,13 @@ pub fn vm_step(d: Dec, st: St) -> Option<Step> {
         ResL::Mul => match op1v { Val::DD(..) => return None, _ => Val::Mul(op0, op1addr, is_imm) },
         ResL::Unconstrained => Val::None,
     };
+    // The VM reads dst and op0 on every step and fails on an unknown cell. Where the instruction
+    // does not use them, the word must therefore name a cell that is known in every frame from
+    // any state: [fp - 1] (the return pc) - otherwise execution fails with an unknown value.
+    let op0_used = d.op1 == Op1::Op0 || d.res == ResL::Add || d.res == ResL::Mul || d.opc == Opc::Call || d.ext == 1 || d.ext == 2;
+    if !op0_used && !(d.op0 == Reg::FP && d.off1 == -1) { return None; }
+    let dst_used = d.opc != Opc::Nop || d.pc == PcU::Jnz || d.ext == 1 || d.ext == 2;
+    if !dst_used && !(d.dst == Reg::FP && d.off0 == -1) { return None; }
     // opcode extensions
     let mut blake = None;
     let mut qm31 = false;
